@@ -35,7 +35,7 @@ CASE_TIMEOUT = {'quick': 300, 'thorough': 600}
 
 def plan(tier, seed):
     n = 96 if tier == 'quick' else 1500
-    kinds = ['mesh', 'mesh', 'eol', 'long', 'raman', 'mesh', 'eol', 'gain']
+    kinds = ['mesh', 'mesh', 'eol', 'long', 'raman', 'mesh', 'eol', 'gain', 'p2p', 'mesh']
     return [{'idx': i, 'kind': kinds[i % len(kinds)]} for i in range(n)]
 
 
@@ -135,6 +135,8 @@ def build_inputs(rng, kind):
     raman_net = kind == 'raman'
     if raman_net:
         tj = P.raman_topology(rng)
+    elif kind == 'p2p':
+        tj = G.gen_p2p(rng, both=True, lumped=rng.random() < 0.2, long_fibers=rng.random() < 0.3)
     else:
         tj, _ = G.gen_topology(rng, max_sites=4, max_spans=3, long_fibers=(kind == 'long'), per_degree=rng.random() < 0.4,
                                per_freq_loss=rng.random() < 0.3, lumped=rng.random() < 0.2, max_km=140)
